@@ -15,10 +15,12 @@ RIGHT_OPS = [['^'], ['=']]
 UNARY_OPS = [['-'], ['!'], ['~~']]
 
 
-def gen_spec(rnd, stmt_ok=False, shapes=('direct', 'alias_before', 'alias_after', 'named', 'optpref', 'split', 'twin', 'mutual')):
+def gen_spec(rnd, stmt_ok=False, shapes=('direct', 'alias_before', 'alias_after', 'named', 'optpref', 'split', 'twin', 'mutual', 'prefalt'), pynames=False):
     nlev = rnd.randint(1, 3)
     levels = []
     used = set()
+    # rule names: e0 e1 e2, or names that are Python keywords / builtins (a generated parser spells those differently)
+    rnames = rnd.choice([['or', 'and', 'not'], ['in', 'is', 'type'], ['list', 'set', 'match']]) if pynames and rnd.random() < 0.2 else ['e0', 'e1', 'e2']
     for i in range(nlev):
         r = rnd.random()
         if r < 0.65 or i == 0:
@@ -35,7 +37,7 @@ def gen_spec(rnd, stmt_ok=False, shapes=('direct', 'alias_before', 'alias_after'
             continue
         ops = rnd.choice(pool)
         used |= set(ops)
-        lv = dict(kind=kind, ops=ops, rule=f'e{i}')
+        lv = dict(kind=kind, ops=ops, rule=rnames[i])
         if kind == 'left':
             lv['shape'] = rnd.choice(shapes)
             if lv['shape'].startswith('alias'):
@@ -61,6 +63,15 @@ def gen_spec(rnd, stmt_ok=False, shapes=('direct', 'alias_before', 'alias_after'
                     lv['shape'] = 'direct'
                 else:
                     used |= {'.', '::', '[]'}
+            if lv['shape'] == 'prefalt':
+                # a prefix-operator alternative listed BEFORE the recursive ones:  e: '-' next | e op next | next
+                # (where it matches it is the seed and the next round matches it again, so nothing grows; elsewhere the chain grows as usual)
+                free = [o for o in ['-', '!', '#'] if o not in used]
+                if free:
+                    lv['pref'] = free[0]
+                    used.add(free[0])
+                else:
+                    lv['shape'] = 'direct'
             if lv['shape'] == 'optpref':
                 lv['pref'] = rnd.choice(['-', '!']) if not {'-', '!'} <= used else '#'
                 if lv['pref'] in used:
@@ -123,6 +134,8 @@ def level_rules(spec):
                 rules.append((name + 'w', ('alt', (('seq', (w, ('tok', '[]'))), ('seq', (selfref, ('tok', '::'), t)), t))))
                 continue
             alts = []
+            if shape == 'prefalt':
+                alts.append(('seq', (('tok', lv['pref']), t)))
             for op in lv['ops']:
                 if shape == 'named':
                     alts.append(('seq', (('named', 'l', selfref), ('named', 'o', ('tok', op)), ('named', 'r', t))))
@@ -335,6 +348,14 @@ def spec_eval(spec, text, rule=None):
             return atom(p)
         lv = levels[i]
         if lv['kind'] == 'left':
+            if lv['shape'] == 'prefalt':
+                q = tok(p, lv['pref'])
+                if q is not None:
+                    try:
+                        q2, v = level(i + 1, q)
+                        return q2, [lv['pref'], v]      # the first alternative is the seed, and matches again in the next round: no growth
+                    except _F:
+                        pass
             p, lhs = level(i + 1, p)
             while True:
                 for op in lv['ops']:
